@@ -125,7 +125,7 @@ def run(ctx):
     for r in (meta.get("runs") or []):
         if r.get("err") and not r.get("ran"):
             ob_failed.append("a run of the real binary could not be completed (%s): %s" % (json.dumps(r["case"]), r["err"][:400]))
-    if ob_failed and not ctx.violations and not ctx.known_hits:
+    if ob_failed and not ctx.violations:
         ctx.violation("obligation-unchecked", dict(unchecked=ob_failed), False, ob_failed[0][:300])
     elif ob_failed:
         ctx.notes.append({"unchecked_obligations": ob_failed})
